@@ -42,6 +42,7 @@ func propC03(c *Ctx) {
 	c.ruleEarlySuccess("C03-EARLY-SUCCESS")
 	c.ruleDeadErrorStores("C03-DEAD-ERROR-STORE")
 	c.ruleTypedNilError("C03-TYPED-NIL-ERROR")
+	c.ruleSchemaErrorMessage("C03-SCHEMA-ERROR-MESSAGE")
 	c.ruleKindVisitedAll("C03-KIND-VISITED-ALL")
 	c.ruleErrorOnOwnDirective("C03-ERROR-ON-OWN-DIRECTIVE")
 }
